@@ -552,3 +552,54 @@ func ReturnValues(ret *ssa.Return) []ssa.Value {
 	}
 	return out
 }
+
+// MayBeZeroValue reports whether v is (through phi / extract / conversions) a load of a local variable that can be
+// reached from the variable's allocation without passing any store to it, i.e. whether v may still hold the zero
+// value of its type (nil slice, nil map, ...). Origins() does not see that alternative because it is not a store.
+func MayBeZeroValue(v ssa.Value) bool {
+	seen := map[ssa.Value]bool{}
+	var rec func(v ssa.Value) bool
+	rec = func(v ssa.Value) bool {
+		if v == nil || seen[v] {
+			return false
+		}
+		seen[v] = true
+		switch x := v.(type) {
+		case *ssa.Extract:
+			return rec(x.Tuple)
+		case *ssa.Phi:
+			for _, e := range x.Edges {
+				if rec(e) {
+					return true
+				}
+			}
+		case *ssa.ChangeType:
+			return rec(x.X)
+		case *ssa.Convert:
+			return rec(x.X)
+		case *ssa.UnOp:
+			if x.Op != token.MUL {
+				return false
+			}
+			a, ok := x.X.(*ssa.Alloc)
+			if !ok {
+				return false
+			}
+			isStore := func(in ssa.Instruction) bool {
+				st, ok := in.(*ssa.Store)
+				return ok && st.Addr == ssa.Value(a)
+			}
+			reach, _ := PathQuery{Avoid: isStore}.Reaches(a.Block(), InstrIndex(a)+1, func(in ssa.Instruction) bool { return in == ssa.Instruction(x) })
+			if reach {
+				return true
+			}
+			for _, r := range *a.Referrers() {
+				if st, ok := r.(*ssa.Store); ok && st.Addr == ssa.Value(a) && rec(st.Val) {
+					return true
+				}
+			}
+		}
+		return false
+	}
+	return rec(v)
+}
